@@ -10,7 +10,7 @@ def run(ctx):
                 "layouts; non-trivial = both bounds present; distinct by (options, labels)")
     ctx.model("MCChain", "MCChain_walls_q.cfg" if quick else "MCChain_walls.cfg", workers=core.NCPU, heap="4g",
               label="every rounding of the optimum stays within 0.5 of the walls when the layer fits")
-    recs, meta, errors = lc.gather(ctx, ["bounds", "random", "float", "centi", "sibling", "far", "relayout", "direct"])
+    recs, meta, errors = lc.gather(ctx, ["bounds", "random", "float", "centi", "sibling", "far", "offscreen", "relayout", "direct"])
     lc.report_errors(ctx, errors, "C03_")
     lc.check(ctx, "LayoutC03.cfg", recs, meta, "C03_")
     ctx.evaluations += len(recs)
